@@ -72,6 +72,15 @@ def run(tier, seed):
             s.append(line("src", "u%d" % j, sx(d)))
             for f in FM: s.append(line("conv", "s_data" if f == "fodt" else "s_conv", "u%d" % j, docs.FMT[f], docs.STD, 0))
         segs.append(s); meta.append(("soup", i))
+    # delimiters that find no partner are text: in the LaTeX family none of # % & _ ^ may be left bare (no tables, no math in these documents)
+    OPEN = ["[#", "[^", "[%", "[?", "[>", "![", "[", "]", "(", ")", "{++", "{--", "{~~", "{==", "{>>", "~>", "++}", "--}", "~~}", "==}", "<<}", "*", "**", "_", "__", "`", "``", "^", "~", "<", ">", "{{", "}}", "{", "}", "|", "#", "%", "&"]
+    for i in range(0, len(OPEN), per):
+        s = ["seg\topeners", "wantout\t1"]
+        for j, o in enumerate(OPEN[i:i + per]):
+            s.append(line("src", "v%d" % j, sx("QZQ x %s y QZQ\n\nQZQ a%sb QZQ\n" % (o, o))))
+            for f in ("latex", "beamer", "memoir"):
+                for x in (docs.STD, NOSMART): s.append(line("conv", "s_conv", "v%d" % j, docs.FMT[f], x, 0))
+        segs.append(s); meta.append(("openers", i))
     res = run_harness(exe, segs, timeout=30)
     trace = []; problems = []; nconv = 0
     for (kind, base), seg, r in zip(meta, segs, res):
@@ -82,6 +91,14 @@ def run(tier, seed):
             if ev.get("e") == "conv": outs[(ev["src"], ev["fmt"])] = (project.lat1(ev["out"]) if ev.get("out") is not None else None)
         for (sid, fm), out in sorted(outs.items()):
             fmt = docs.FMTNAME[fm]; nconv += 1
+            if kind == "openers":
+                o = OPEN[base + int(sid[1:])]
+                body = b" ".join(re.findall(rb"QZQ(.*?)QZQ", out or b"", re.S))
+                body = re.sub(rb"\\[A-Za-z]+|\\.", b"", body)                      # commands and escaped characters are what the writer may produce
+                left = sorted({ch for ch in body.decode("latin-1") if ch in "#%&_^"})
+                trace.append(dict(e="reset"))          # (one verdict per document and format)
+                trace.append(dict(e="rawres", null=out is None, fmt=fmt, opener=o, leftover=left, src="x %s y / a%sb" % (o, o)))
+                continue
             if kind == "soup":
                 ok, evs, _ = nesting(fmt, out or b"")
                 trace.append(dict(e="nest", fmtname=fmt, parsed=ok, events=evs, src=soup[base + int(sid[1:])][3]))
@@ -111,6 +128,11 @@ def run(tier, seed):
     seen = {}
     for seg, idx in rejected:
         ev = seg[idx]
+        if ev["e"] == "rawres":
+            key = "unescaped:latex:variable-opener:percent" if (ev["opener"] == "[%" and ev["leftover"] == ["%"]) else "unescaped:latex:opener:%s" % ev["opener"]
+            desc = "the unmatched delimiter %r in %r is written to %s with %s left bare" % (ev["opener"], ev["src"], ev["fmt"], ev["leftover"])
+            if key in seen: seen[key] += 1; continue
+            seen[key] = 1; chk.report(key, desc, dict(opener=ev["opener"], fmt=ev["fmt"])); continue
         if ev["e"] == "esc":
             what = "lost-or-repeated" if ev["count"] != ev["basecount"] or ev["count"] == 0 else "unescaped"
             key = "%s:%s:%s:%s" % (what, ev["fmt"], ev["slot"], ev["chname"])
